@@ -181,6 +181,69 @@ func genC12(g *Gen) {
 		g.EmitWith(0x1201, in, out, nontriv, cls)
 	}
 
+	// (b2) deep chains: nested directories well past every growth step of the validator's stack
+	// (initial capacity 10, then doubling), followed by a tail that returns to some ancestor level
+	// with the same name again, a smaller / larger sibling, a file of the same name, or a child of a
+	// directory that was left.  Deterministic, plus a few random ones.
+	r := g.Rng
+	c12Deep := func(depth int, names []string, tail int, level int) Sx {
+		var seq []Sx
+		cur := ""
+		var prefixes []string
+		for d := 0; d < depth; d++ {
+			n := names[d%len(names)]
+			if cur == "" {
+				cur = n
+			} else {
+				cur = cur + "/" + n
+			}
+			prefixes = append(prefixes, cur)
+			seq = append(seq, vitem(0, cur, true))
+		}
+		if level >= len(prefixes) {
+			level = len(prefixes) - 1
+		}
+		at := prefixes[level]
+		parent := ""
+		if i := strings.LastIndex(at, "/"); i >= 0 {
+			parent = at[:i+1]
+		}
+		base := at[len(parent):]
+		switch tail {
+		case 0: // the same directory again
+			seq = append(seq, vitem(0, at, true))
+		case 1: // a file with the same name
+			seq = append(seq, vitem(0, at, false))
+		case 2: // a smaller sibling
+			seq = append(seq, vitem(0, parent+"!"+base, r.Bool()))
+		case 3: // a larger sibling (valid), then the directory again (invalid)
+			seq = append(seq, vitem(0, parent+base+"~", false), vitem(0, at, true))
+		case 4: // child of the deepest directory, then a larger sibling at the chosen level (valid)
+			seq = append(seq, vitem(0, cur+"/zz", false), vitem(0, parent+base+"~", true), vitem(0, parent+base+"~/k", false))
+		case 5: // child of a directory that was left
+			seq = append(seq, vitem(0, parent+base+"~", false), vitem(0, at+"/late", false))
+		}
+		return L(seq...)
+	}
+	for _, depth := range []int{1, 2, 5, 9, 10, 11, 12, 20, 21, 22, 23, 42, 43, 44, 45, 87, 88, 89} {
+		for tail := 0; tail < 6; tail++ {
+			for _, level := range []int{depth - 1, depth - 2, depth / 2, 0} {
+				if level < 0 {
+					continue
+				}
+				in := c12Deep(depth, []string{"m"}, tail, level)
+				out := run1201(in)
+				g.EmitWith(0x1201, in, out, depth >= 2, "deep-chain")
+			}
+		}
+	}
+	for i := 0; i < g.Vol(300, 6000); i++ {
+		depth := 1 + r.Intn(100)
+		in := c12Deep(depth, []string{"a", "a-b", "b", "é", "a b"}, r.Intn(6), r.Intn(depth))
+		out := run1201(in)
+		g.EmitWith(0x1201, in, out, depth >= 2, "deep-chain-rnd")
+	}
+
 	// (c) ComparePath: all alphabet pairs + random byte strings sharing a prefix
 	for _, p := range c12Alphabet {
 		for _, q := range c12Alphabet {
